@@ -180,7 +180,7 @@ pub fn run(p: &VqParams, sc: &str) -> VqOutcome {
             for _ in 0..toks.len() {
                 if let Some(t) = queue.peek_used() { order.push(t); } else { break; }
                 let t = *order.last().unwrap();
-                let Some(mut sub) = held.remove(&t) else { with_world(|w| { for (_, l) in w.qtrace.iter().rev().take(60).rev() { eprintln!("{}", &l[..l.len().min(200)]); } }); panic!("device completed {t} but caller holds {:?} (i={i})", held.keys().collect::<Vec<_>>()) };
+                let Some(mut sub) = held.remove(&t) else { panic!("device completed {t} but caller holds {:?} (i={i})", held.keys().collect::<Vec<_>>()) };
                 let pre = out_digest(&sub.outs);
                 with_world(|w| {
                     w.cur_q = Some(q);
@@ -411,11 +411,10 @@ pub fn run(p: &VqParams, sc: &str) -> VqOutcome {
     drop(queue);
     drop(transport);
     let lines = with_world(|w| {
-        let mut v = Vec::with_capacity(w.qtrace.len() + 1);
+        let mut v = Vec::with_capacity(w.trace.len() + 1);
         v.push(json!({"e":"Reset","sc":sc,"n":p.n,"ind":p.indirect,"ev":p.event_idx,"ap":p.ap}).to_string());
-        for (_, l) in w.qtrace.drain(..) {
-            v.push(l);
-        }
+        v.extend(w.q_lines(q));
+        w.trace.clear();
         v
     });
     stats["completed"] = json!(sched.borrow().completed);
